@@ -38,8 +38,11 @@ def expected_delay(k, d, dmax, rf, j):
 
 
 def run_case(is_async, cause, recon, word, shutdown_at, extra, params, j,
-             auth_mode='value'):
-    """One fault sequence.  Returns list of (key, msg)."""
+             auth_mode='value', obs=None):
+    """One fault sequence.  Returns list of (key, msg).  `obs` (a dict)
+    receives the raw observations (used by C14's twin comparison)."""
+    if obs is None:
+        obs = {}
     d, dmax, rf, attempts = params
     v = []
     tag = f'{"Async" if is_async else ""}Client cause={cause} ' \
@@ -183,6 +186,9 @@ def run_case(is_async, cause, recon, word, shutdown_at, extra, params, j,
                             next_attempt_script, bad)
         # ---------------------------------------------------------------
         calls = w.connect_calls[ncalls0:]
+        obs.update(calls=[dict(x) for x in calls], waits=list(waits),
+                   auth_calls=len(auth_calls), final=(
+                       c.connected, sorted(c.namespaces)))
         accidental = cause == 'transport-error'
         should = recon and accidental
         if not should:
@@ -254,6 +260,7 @@ def run_case(is_async, cause, recon, word, shutdown_at, extra, params, j,
                     f'{rf * (2 * j - 1):+})')
         # CONNECT packets of every attempt that got a transport
         out = [f for f in w.take_outbox() if f[0] == 'pkt' and f[1] == 0]
+        obs['connect_packets'] = list(out)
         n_transport = sum(1 for i in range(len(calls))
                           if (list(word) + ['ok'] * 10)[i] != 'fail') \
             if extra is None else None
@@ -270,6 +277,7 @@ def run_case(is_async, cause, recon, word, shutdown_at, extra, params, j,
                 bad('attempt-connect-packets', f'CONNECT packets {out}, '
                     f'expected {want}')
         lg = w.take_log()
+        obs['log'] = list(lg)
         if extra is None and shutdown_at is None:
             if exp_success:
                 conn = sorted(e for e in lg if e[0] == 'connect')
@@ -394,6 +402,7 @@ def _run_async(w, cause, shutdown_at, extra, state, waits,
             tasks.append(_TaskView(t))
         return t
     w.eio.start_background_task = start_background_task
+    from ..vloop import HorizonHit
     try:
         _cause(w, cause, True)
         w.loop.run()
@@ -401,6 +410,15 @@ def _run_async(w, cause, shutdown_at, extra, state, waits,
             w.take_log()
             _cause(w, 'transport-error', True)
             w.loop.run()
+    except HorizonHit:
+        # the environment script is finite (every attempt beyond the word
+        # succeeds), so an effort that is still busy after the horizon
+        # never stops
+        bad('effort-never-ends', f'the reconnection effort was still making '
+            f'attempts after {loop.horizon} scheduling steps '
+            f'({len(w.connect_calls)} connection attempts, waits '
+            f'{waits[:8]}...)')
+        loop.horizon = 10 ** 9
     finally:
         asyncio.wait_for = saved
     return v
